@@ -1,6 +1,7 @@
 package checks
 
 import (
+	"bytes"
 	"crypto/sha256"
 	"encoding/json"
 	"fmt"
@@ -224,6 +225,9 @@ func c11(tier string, args []string) int {
 		{"deal-truncated", dpf.StateDkgDealsAwaitConfirmations, onlyV},
 		{"deal-bit-flipped", dpf.StateDkgDealsAwaitConfirmations, onlyV},
 		{"deal-empty-json", dpf.StateDkgDealsAwaitConfirmations, onlyV},
+		// a correctly encrypted deal whose AES-GCM nonce is 420 000 bytes long: the deal still fits
+		// into a board line; so must whatever the victim has to post about it
+		{"deal-with-a-nonce-of-420000-bytes", dpf.StateDkgDealsAwaitConfirmations, onlyV},
 		{"commitments-too-short", dpf.StateDkgCommitsAwaitConfirmations, allButD},
 		{"commitments-too-long", dpf.StateDkgCommitsAwaitConfirmations, allButD},
 		{"commitments-empty", dpf.StateDkgCommitsAwaitConfirmations, allButD},
@@ -406,6 +410,16 @@ func runC11(r *kit.Run, n, t, D, V int, dv deviation, allOrders bool) {
 				case "deal-empty-json":
 					base := bls12381.NewBLS12381Suite(nil)
 					req.Deal, _ = ecies.Encrypt(base, w.Airs[V].M.GetPubKey(), []byte("{}"), base.Hash)
+				case "deal-with-a-nonce-of-420000-bytes":
+					base := bls12381.NewBLS12381Suite(nil)
+					plain, derr := ecies.Decrypt(base, w.Airs[V].M.VerifSecKey(), req.Deal, base.Hash)
+					var dl dkgPedersen.Deal
+					if derr != nil || json.Unmarshal(plain, &dl) != nil || dl.Deal == nil {
+						r.Infra("%s: the genuine deal cannot be opened with the victim's key: %v", label, derr)
+					}
+					dl.Deal.Nonce = bytes.Repeat([]byte{0x5a}, 420000)
+					plain, _ = json.Marshal(&dl)
+					req.Deal, _ = ecies.Encrypt(base, w.Airs[V].M.GetPubKey(), plain, base.Hash)
 				}
 				res.ResultMsgs[vi].Data, _ = json.Marshal(req)
 			case dpf.StateDkgCommitsAwaitConfirmations:
